@@ -503,8 +503,16 @@ static Verdict check_c07 (const J &plan)
 static void gen_script (GenCtx &g, J &ops, const Fmt &f, int ch, int rate, int T, const std::string &file, int maxops)
 {	int B = block_frames (f, ch, rate) ;
 	J o = mkop ("open") ; o ["mode"] = "w" ; o ["fmt"] = f.name ; o ["ch"] = ch ; o ["sr"] = rate ; o ["file"] = file ; o ["route"] = needs_path_route (f) ? "path" : (g.rng.chance (0.7) ? "vio" : "fd") ;
-	DataDesc d ; d.cls = g.rng.chance (0.6) ? "noise" : "sine" ; d.stream = (int64_t) g.rng.below (1000) ; o ["data"] = data_desc_to (d) ;
+	DataDesc d ; d.cls = g.rng.chance (0.6) ? "noise" : "sine" ; d.stream = (int64_t) g.rng.below (1000) ;
+	// IEEE encodings: a third of the scripts carry the values on which the host's arithmetic and the library's portable codec
+	// differ (subnormals, tiny normals, signed zero), and a fifth switch the portable codec on for their own handle - a switch
+	// that belongs to that handle alone (decided from the stream position, the draws of the other choices are unchanged)
+	bool ieee = f.is_float || f.is_double ;
+	uint64_t hx = mix3 (0xc19, (uint64_t) d.stream, (uint64_t) ch * 131 + (uint64_t) T) ;
+	if (ieee && hx % 3 == 0) d.cls = "extremes" ;
+	o ["data"] = data_desc_to (d) ;
 	ops.push (o) ;
+	if (ieee && (hx >> 8) % 5 == 0) { J c = mkop ("cmd") ; c ["id"] = "ieee_replace" ; c ["arg"] = 1 ; ops.push (c) ; }
 	int nw = (int) g.rng.range (1, std::max (1, maxops / 3)) ;
 	int64_t N = 0, cap = (is_alac (f) ? 5000 : 1500) / ch + 2 ;
 	for (int k = 0 ; k < nw ; k++) { J w = mkop ("write") ; w ["T"] = stype_name (T) ; if (g.rng.chance (0.5)) w ["fr"] = 1 ; int64_t n = g.pick_frames (B, ch, cap) ; w ["n"] = (long long) n ; N += n ; ops.push (w) ; }
@@ -524,6 +532,7 @@ static void gen_script (GenCtx &g, J &ops, const Fmt &f, int ch, int rate, int T
 	J o2 = mkop ("open") ; o2 ["mode"] = "r" ; o2 ["fmt"] = f.name ; o2 ["ch"] = ch ; o2 ["sr"] = rate ; o2 ["file"] = file ; if (foreign) o2 ["expect"] = "any" ; ops.push (o2) ;
 	// a quarter of the readers change one of their own conversion switches: a setting of one handle must not reach another
 	if (g.rng.chance (0.25)) { J c = mkop ("cmd") ; c ["id"] = g.rng.pick<const char *> ({ "norm_float", "norm_double", "clipping" }) ; c ["arg"] = g.rng.chance (0.8) ? 0 : 1 ; ops.push (c) ; }
+	if (ieee && (hx >> 16) % 5 == 0) { J c = mkop ("cmd") ; c ["id"] = "ieee_replace" ; c ["arg"] = 1 ; ops.push (c) ; }
 	int nr = (int) g.rng.range (1, std::max (1, maxops / 2)) ;
 	for (int k = 0 ; k < nr ; k++)
 	{	if (g.rng.chance (0.25) && N > 0) { J s = mkop ("seek") ; s ["off"] = (long long) g.rng.below ((uint64_t) N + 1) ; s ["whence"] = 0 ; ops.push (s) ; }
